@@ -37,6 +37,10 @@ Definition w_txt_addl_ptr3 : bytes := [0;0;132;0;0;0;0;1;0;0;0;1;3;119;101;98;5;
 Definition w_ptr120 : bytes := [0;0;132;0;0;0;0;1;0;0;0;0;5;95;104;116;116;112;4;95;116;99;112;5;108;111;99;97;108;0;0;12;0;1;0;0;0;120;0;6;3;119;101;98;192;12] .
 Definition w_srv_addr : bytes := [0;0;132;0;0;0;0;0;0;0;0;2;3;119;101;98;5;95;104;116;116;112;4;95;116;99;112;5;108;111;99;97;108;0;0;33;128;1;0;0;0;120;0;14;0;0;0;0;31;144;5;104;111;115;116;49;192;27;192;50;0;1;128;1;0;0;0;120;0;4;192;168;1;50] .
 
+(* round 6: SRV -> host2 (TTL 8, no cache-flush) + A host2 (TTL 3); a second A of host2 *)
+Definition w_srv_h2_addr3 : bytes := [0;0;132;0;0;0;0;0;0;0;0;2;3;119;101;98;5;95;104;116;116;112;4;95;116;99;112;5;108;111;99;97;108;0;0;33;0;1;0;0;0;8;0;14;0;0;0;0;35;130;5;104;111;115;116;50;192;27;192;50;0;1;128;1;0;0;0;3;0;4;192;168;1;60] .
+Definition w_addr_h2 : bytes := [0;0;132;0;0;0;0;0;0;0;0;1;5;104;111;115;116;50;5;108;111;99;97;108;0;0;1;128;1;0;0;0;120;0;4;192;168;1;61] .
+
 Definition ex_ifs : iftab := [(2, (true, true)); (3, (true, false))].
 Definition T0 : N := 1000000.
 
@@ -331,4 +335,48 @@ Lemma stop_second_name_witness :
   /\ existsb is_dead_no_srv (viol_C05 ex_ifs stopname_hist (ex_wakes stopname_hist)
                                       (map obs_of (run_history ex_ifs stopname_hist))) = true
   /\ known_stop_second_name ex_ifs twonames_hist = false /\ known_stop_second_name ex_ifs again_hist = false.
+Proof. repeat split; vm_compute; reflexivity. Qed.
+
+(* round 6: the class of C05-expiry-hidden-by-expiring-ptr as a predicate on histories
+   (known_removal_hidden: a removal is skipped because the PTR is in its last second), its
+   witness, and non-vacuity of the timeliness theorem: histories in timely_class whose traces have
+   ServiceRemoved events for a goodbye, an SRV expiry under two names, an address expiry under two
+   names, an address expiry with a mixed-case host *)
+Lemma removal_hidden_witness :
+  wf_history ptrlast_hist = true /\ safe_class ex_ifs ptrlast_hist = true /\ fresh_channels ptrlast_hist = true
+  /\ known_stop_second_name ex_ifs ptrlast_hist = false
+  /\ known_removal_hidden ex_ifs ptrlast_hist = true
+  /\ existsb is_dead_fail (viol_C05 ex_ifs ptrlast_hist (ex_wakes ptrlast_hist) (map obs_of (run_history ex_ifs ptrlast_hist))) = true.
+Proof. repeat split; vm_compute; reflexivity. Qed.
+
+Lemma timely_example :
+  map (timely_class ex_ifs) [ex_hist; twonames_hist; twonames_addr_hist; mixedcase_hist; again_hist; lastsec_hist]
+  = [true; true; true; true; true; true]
+  /\ map (fun h => existsb (existsb is_removed_evt) (run_history ex_ifs h))
+         [ex_hist; twonames_hist; twonames_addr_hist; mixedcase_hist; again_hist; lastsec_hist]
+     = [true; true; true; true; true; true]
+  /\ map (timely_class ex_ifs) [ptrlast_hist; stopname_hist; ref5_hist; srvtgt_hist] = [false; false; false; false].
+Proof. repeat split; vm_compute; reflexivity. Qed.
+
+(* F05_again is FALSE inside the class known_srv_targets (round 6, the daemon agrees): the instance
+   is resolved through SRV -> host1; a second SRV -> host2 (TTL 8) with an address (TTL 3) takes
+   over; the address runs out at +3200: ServiceRemoved (finding C05-second-srv-target); at +7500,
+   when the SRV -> host2 is in its last second, a new address record of host2 arrives:
+   ServiceResolved through SRV -> host1 again - no record of the instance or of host1 since the
+   removal *)
+Definition again_tgt_hist : list iter :=
+  [ mkIter T0 [] [CBrowse n_ty 1];
+    mkIter (T0 + 100) [mkDgram 2 true w_full] [];
+    mkIter (T0 + 200) [mkDgram 2 true w_srv_h2_addr3] [];
+    mkIter (T0 + 3200) [] [];
+    mkIter (T0 + 7500) [mkDgram 2 true w_addr_h2] [];
+    mkIter (T0 + 8000) [] [] ].
+
+Lemma again_srv_targets_witness :
+  wf_history again_tgt_hist = true /\ fresh_channels again_tgt_hist = true
+  /\ known_srv_targets (log_of_history ex_ifs again_tgt_hist) = true
+  /\ map (fun o => (existsb is_resolved_evt o, existsb is_removed_evt o)) (run_history ex_ifs again_tgt_hist)
+     = [(false, false); (true, false); (true, false); (false, true); (true, false); (false, false)]
+  /\ existsb is_again_fail (viol_C05 ex_ifs again_tgt_hist (ex_wakes again_tgt_hist)
+                                     (map obs_of (run_history ex_ifs again_tgt_hist))) = true.
 Proof. repeat split; vm_compute; reflexivity. Qed.
